@@ -413,8 +413,7 @@ def drv_matrices(c, ctx, col):
 def mini_specs(n):
     """contrasts used when the *container / dtype* of the data is the dimension under test (the coding matrices are
     covered with the object-dtype container): defaults that depend on the level order + one explicit base"""
-    return [{"kind": "treatment", "base": None}, {"kind": "SAS", "base": 0}, {"kind": "sum"},
-            {"kind": "helmert", "reverse": True, "scale": False}]
+    return [{"kind": "treatment", "base": None}, {"kind": "SAS", "base": 0}, {"kind": "sum"}]
 
 
 def unused_label(kind):
@@ -552,6 +551,8 @@ def drv_encode(c, ctx, col):
             # second data set with the recorded state (levels absent from it, nulls and outsiders included)
             if (reduced, output) not in ((True, "pandas"), (False, "sparse")) and not ctx.get("all_followups"):
                 continue
+            if data.kind != "object" and not reduced:
+                continue
             before = list(state.get("categories", ()))
             try:
                 fv2 = encode_contrasts(series(follow), contrasts=con, reduced_rank=reduced, output=output, _state=state)
@@ -655,7 +656,7 @@ def drv_formula(c, ctx, col):
 ENC_CONTAINERS = ["object", "ndarray", "cat", "cat-rev", "cat-super"]
 FRM_CONTAINERS = ["object", "cat", "cat-rev", "cat-super"]
 CONTAINER_DOC = ("object-dtype Series x every contrast option; object ndarray (encode only) and categorical dtype with sorted / "
-                 "reversed / superset categories x {treatment, SAS(base=first), sum, Helmert} (pandas reduced + sparse full; "
+                 "reversed / superset categories x {treatment, SAS(base=first), sum} (pandas reduced + sparse full; "
                  "formulas: pandas output)")
 
 
